@@ -36,6 +36,7 @@ After the last step every withheld reply is delivered and the waits are judged o
 from __future__ import annotations
 
 from hypothesis import strategies as st
+from twisted.internet import defer
 from zope.interface import implementer
 
 from vlib import torworld
@@ -99,10 +100,18 @@ ASSUMPTIONS = [
     "is checked for it); when tor answered 552 to a close command for an object, outcomes of the close "
     "requests for that object are not compared with each other",
     "a CLOSE* command may be refused (552 Unknown ...) although the controller still lists the object, because "
-    "tor has just marked it for close itself; its CLOSED/FAILED event follows, before or after the 552. The "
-    "close waits of that object may then fail early (before the gone event) or complete at the gone event, "
-    "succeeding or failing; they must never succeed before the gone event and must be complete once the "
-    "object is reported gone and every reply has arrived",
+    "tor has just marked it for close itself; its CLOSED/FAILED event follows, before or after the 552. Refused "
+    "commands are outside the statement's quantifier ('command acknowledged' vs 'object reported closed'); they "
+    "are generated only to demand that a wait is not lost. Accepted: (a) every close wait on that object that "
+    "exists when the refusal arrives (the request that sent the command and repeated requests joined to it) "
+    "fails right then with tor's error (isinstance TorProtocolError) - it has then completed, and a later "
+    "close() is a new request; (b) it stays pending and completes (succeeding or failing) when tor reports the "
+    "object gone. Still violations: succeeding before the gone event, failing before it with anything but "
+    "tor's error or without a refusal, firing twice, still pending once the object is reported gone and every "
+    "reply has arrived",
+    "a close wait need not complete *at* the CLOSED/FAILED event: when the event overtakes the 250 it may "
+    "complete at the event or only when the 250 arrives (the later of the two); it must have completed once "
+    "both have arrived",
     "between the CLOSED/FAILED event and a still outstanding acknowledgement a close wait may be pending or "
     "complete; it must be complete once every acknowledgement has arrived",
     "build_circuit(): a circuit is never reported CLOSED/FAILED while the '250 EXTENDED id' reply that announces "
@@ -124,15 +133,27 @@ S_NAMES = ["stream_new", "stream_succeeded", "stream_attach", "stream_detach", "
 TRIG = [4, 5, 4, 5, 3, 2, 1, 0]         # terminal notifications are the favourite trigger
 
 
+# re-purposed circuits (the only circuit histories in which a later report lacks a keyword of an earlier one)
+# are made more frequent than in C07
+WEIGHTS = dict(torworld.DEFAULT_WEIGHTS, c_cannibalize=5)
+
+
 def cases():
-    prog = st.tuples(st.integers(0, 7), st.integers(0, 7), st.integers(0, 3), st.integers(0, 3)).map(list)
+    anyprog = st.tuples(st.integers(0, 7), st.integers(0, 7), st.integers(0, 3), st.integers(0, 3)).map(list)
+    # the first listener of a kind removing itself (or the listener before it) while a notification is
+    # delivered - the listener registered after it is the one at risk
+    risky = st.sampled_from([[0, 0, 0, 0], [0, 0, 0, 0], [0, 1, 0, 0], [0, 5, 0, 0], [0, 5, 0, 0], [0, 4, 0, 0],
+                             [0, 6, 0, 0], [1, 0, 1, 0], [1, 5, 1, 0], [2, 0, 0, 0], [2, 5, 0, 0],
+                             [4, 0, 0, 0], [4, 1, 0, 0], [4, 5, 0, 0], [4, 6, 0, 0], [4, 7, 0, 0], [5, 0, 1, 0],
+                             [5, 5, 1, 0], [6, 4, 0, 0]])
+    prog = st.one_of(anyprog, risky)
     return st.builds(lambda m, p, e, s, g: {"modern": m, "pre": p, "early": e, "steps": s, "progs": g},
                      st.booleans(),
                      st.one_of(st.just([]), torworld.steps(max_size=12), torworld.steps(max_size=30)),
-                     st.lists(st.booleans(), min_size=4, max_size=4),
-                     st.one_of(torworld.steps(max_size=20, extra_ops=EXTRA_OPS),
-                               torworld.steps(min_size=25, max_size=70, extra_ops=EXTRA_OPS),
-                               torworld.steps(min_size=25, max_size=70, extra_ops=EXTRA_OPS)),
+                     st.one_of(st.lists(st.booleans(), min_size=4, max_size=4), st.just([True, True, True, True])),
+                     st.one_of(torworld.steps(max_size=20, weights=WEIGHTS, extra_ops=EXTRA_OPS),
+                               torworld.steps(min_size=25, max_size=70, weights=WEIGHTS, extra_ops=EXTRA_OPS),
+                               torworld.steps(min_size=25, max_size=70, weights=WEIGHTS, extra_ops=EXTRA_OPS)),
                      st.one_of(st.just([]), st.lists(prog, min_size=1, max_size=3), st.lists(prog, min_size=1, max_size=5)))
 
 
@@ -354,15 +375,24 @@ class Wait(object):
         self.decided_at_request = decided
         self.cmd_index = cmd_index  # index of the CLOSE* command this request put on the wire, if any
         self.tainted = False        # tor answered 552 to a close command for this id
+        self.refused = False        # a 552 for this object's close command was delivered while this wait existed
+        self.seen_fired = None      # (object reported gone?, a reply still withheld?) when first seen completed
 
 
-def judge_waits(res, waits, final, where):
+def _is_tor_error(w):
+    from txtorcon import TorProtocolError
+    return w.watch.failure is not None and isinstance(w.watch.failure.value, TorProtocolError)
+
+
+def judge_waits(res, waits, final, where, held=False):
     for w in waits:
         if w.kind == "build":
             continue
         f = w.watch.fired
         out = "pending" if f == 0 else ("failed" if w.watch.failed else "succeeded")
         m = w.m
+        if f and w.seen_fired is None:
+            w.seen_fired = (bool(m.gone), bool(held))
         if f > 1:
             res.bad("wait-fired-twice/%s" % w.kind, "%s: %s wait on %r fired %d times" % (where, w.kind, m, f))
             continue
@@ -381,8 +411,9 @@ def judge_waits(res, waits, final, where):
             what = "Circuit.close()" if w.kind == "close_c" else "Stream.close()"
             if not w.alive_at_request:
                 continue
-            if not m.gone and out == "failed" and w.tainted:
-                pass            # tor refused the command: failing the wait right away is acceptable
+            if not m.gone and out == "failed" and w.refused and _is_tor_error(w):
+                pass            # tor refused the command: failing the wait with tor's error right away is
+                #                 acceptable (it has completed; a later close() is a new request)
             elif not m.gone and out != "pending":
                 res.bad("%s-completed-before-gone" % w.kind,
                         "%s: %s on %r completed (%s) but tor has not reported it CLOSED/FAILED" % (
@@ -403,7 +434,8 @@ def judge_waits(res, waits, final, where):
     if final:
         groups = {}
         for w in waits:
-            if w.kind in ("close_c", "close_s") and w.alive_at_request and not w.tainted and w.watch.fired == 1:
+            if w.kind in ("close_c", "close_s") and w.alive_at_request and not w.tainted and not w.refused \
+                    and w.watch.fired == 1:
                 groups.setdefault((w.kind, w.m.inc), []).append(w)
         for (kind, _), ws in sorted(groups.items()):
             outs = set("failed" if w.watch.failed else "succeeded" for w in ws)
@@ -438,6 +470,7 @@ class Run(object):
         self.introduced = set()     # incs the controller first heard of through a 250 EXTENDED reply
         self.owed_new = set()       # (Lst, inc): circuit_new not delivered with the reply -> due with LAUNCHED
         self.build_orders = False
+        self.kw_seen = {}           # (kind, inc) -> keywords reported so far (classification only)
         self.cur_event = None       # (kind, inc, zombie) while an event is being delivered
         self.touched = set()        # listeners (un)registered from inside a callback during the current event
         self.progs = {}
@@ -484,9 +517,7 @@ class Run(object):
                     continue
                 t.reg.discard(inc)
                 self.touched.add(t)
-                res.label("prog:unlisten-%s-inside-%s" % ("itself" if act == 0 else "another-listener",
-                                                           "terminal-notification" if name[-6:] in ("closed", "failed")
-                                                           else "notification"))
+                res.label("prog:unlisten-%s-inside-%s" % ("itself" if act == 0 else "another-listener", name))
             else:
                 if t is l or inc in t.reg:
                     continue
@@ -528,6 +559,14 @@ class Run(object):
         kind, idx = sess.last_acked
         if kind == "close":
             self.acks_sent += 1
+            if sess.close_replies[idx]["code"] != 250:
+                # a refusal reaches the controller: every close wait on that object that exists now may be failed
+                # with tor's error by it
+                words = sess.close_lines[idx].split()
+                for wt in self.waits:
+                    if wt.kind in ("close_c", "close_s") and str(wt.m.id) == words[1] and (
+                            (wt.kind == "close_c") == (words[0] == "CLOSECIRCUIT")):
+                        wt.refused = True
         else:
             self.on_extend_reply(idx)
 
@@ -574,6 +613,11 @@ class Run(object):
                 sess.emit(rp)
             finally:
                 self.cur_event = None
+            seen_kw = self.kw_seen.setdefault((kind, inc), set())
+            if rp.status in ("CLOSED", "FAILED", "DETACHED") and seen_kw - set(rp.kw):
+                res.label("%s-%s-lacks-a-keyword-an-earlier-event-had" % ("circuit" if kind == "c" else "stream",
+                                                                          rp.status))
+            seen_kw.update(rp.kw)
             req0, opt = expected_calls(rp)
             if kind == "c" and rp.first_sight and inc in self.introduced:
                 # the 250 EXTENDED reply told the controller first: circuit_new is due now only from listeners
@@ -719,11 +763,11 @@ class Run(object):
                     sess.close_refuse = False       # no command reached tor now (repeated request / queued)
                 elif b % 4 == 3 and m.gone is None and len(sess.close_lines) > n0:
                     res.label(kind + "-refused-while-listed")
-                if c % 3 == 1 and sess.held:
-                    self.do_ack()           # this time tor's reply is not delayed
                 cmd_index = n0 if len(sess.close_lines) > n0 else None
                 repeated = any(x.kind == kind and x.m is m for x in self.waits)
                 self.waits.append(Wait(kind, m, obj, d, m.gone is None, bool(m.gone), cmd_index))
+                if c % 3 == 1 and sess.held:
+                    self.do_ack()           # this time tor's reply is not delayed
                 if m.gone is None:
                     res.label(kind + ("-repeated" if repeated else "-requested"))
                     if c % 6 == 5:
@@ -928,13 +972,13 @@ class Run(object):
                 l.late_for = set()
         self.skip_calls()
         self.note_objects()
-        judge_waits(res, self.waits, False, "after snapshot")
+        judge_waits(res, self.waits, False, "after snapshot", held=bool(sess.held))
         for i, s in enumerate(case["steps"]):
             if not res.ok:
                 return
             self.step(i, s)
             self.after_client_action()
-            judge_waits(res, self.waits, False, "after step %d %r" % (i, s))
+            judge_waits(res, self.waits, False, "after step %d %r" % (i, s), held=bool(sess.held))
             self.judge_builds(False, "after step %d %r" % (i, s))
             self.check_live_sets("after step %d %r" % (i, s))
             self.check_log("after step %d %r" % (i, s))
@@ -965,7 +1009,7 @@ class Run(object):
     def check_log(self, where):
         for ev in self.logs.errors:
             f = ev.get("failure")
-            if f is not None and f.type.__name__ == "AlreadyCalledError":
+            if f is not None and isinstance(f.value, defer.AlreadyCalledError):
                 self.res.bad("wait-fired-twice/AlreadyCalledError", "%s: %s" % (where, f.getErrorMessage()))
                 break
         del self.logs.errors[:]
@@ -991,6 +1035,16 @@ def drive(case):
     for w in run.waits:
         res.label("%s-ended-%s" % (w.kind, "pending" if w.watch.fired == 0 else
                                    "failed" if w.watch.failed else "succeeded"))
+        if w.kind in ("close_c", "close_s") and w.alive_at_request and w.seen_fired is not None:
+            gone, held = w.seen_fired
+            if w.refused and not gone:
+                res.label(w.kind + "-failed-at-the-refusal-with-tors-error")
+            elif w.refused:
+                res.label(w.kind + "-refused-but-completed-when-reported-gone")
+            elif gone and held:
+                res.label(w.kind + "-completed-at-gone-event-with-ack-outstanding")
+            elif gone:
+                res.label(w.kind + "-completed-once-event-and-ack-had-both-arrived")
     res.nontrivial = run.events >= 6 and run.judged_calls > 0 and (both or run.reversed_ack)
     res.labels = sorted(set(res.labels))
     return res
